@@ -15,6 +15,7 @@ META = dict(
     required_hits=["pairs_compared"],
     max_inconclusive_frac=0.2,
 )
+META["level_text"] += ' In the scale-varied schemes the interior point mu = mu0/xif, where the two coupling arguments of the last segment coincide bit for bit, is treated like a boundary.'
 
 C_LIP = 500.0
 
